@@ -15,7 +15,7 @@ META = {
                    "decision trees); the unescaped-text rule: every Content::raw call site is enumerated with the type and "
                    "provenance of its argument and every constructor that can put caller text into those fields is checked; "
                    "attribute values always go through the escaping writer; the handle character class and length table; the "
-                   "panic-capable constructs reachable from the XML parsing entry points are enumerated and discharged as in C04.",
+                   "panic-capable constructs reachable from the XML parsing entry points are enumerated and discharged as in C04; unescaped text (Text::write_raw) reaches the output only through Content::raw and the base64 encoder; piecewise base64 encoding uses pieces of a multiple of 3 octets.",
     "not_decided": ["parse(write(m)) == m for all messages (value equality)",
                     "well-formedness for field values injected through serde Deserialize impls"],
     "trusted_base": ["quick-xml does not unescape in BytesText::decode", "base64 alphabet contains no XML-special characters"],
